@@ -30,6 +30,18 @@ CLAIMED = {
         "small scope; the C04 reading fixed in DESIGN 5/C04 (zero preference may stay zero inside the zone)",
         "TLA+ spec model-checked with TLC; spec behaviours replayed into the real class; recorded traces validated by TLC trace spec",
     ),
+    "C14": (
+        "specs/PowerDistributor.tla + PowerDistributorTrace.tla",
+        "DESIGN.md 5/C14",
+        "TLC checks NoOverlap, PendingIsLatest, QuiescentLatestApplied, EnteredIncreasing, DisjointIndependent and, under weak "
+        "fairness, LastRequestApplied on the actor's state machine (send / receive / enter / resolve / exit / done-callback) for "
+        "2-3 groups and up to 5 requests; TLC-generated behaviours (every transition of the generation model plus simulated long "
+        "ones) are turned into injection schedules for the real PowerDistributingActor pumped one loop iteration at a time with a "
+        "probe ComponentManager; each recorded execution is validated by TLC: observation-only clauses (no overlap, latest wins at "
+        "every idle point and after the drain, also after a raising distribution) and existential conformance with the spec.",
+        "single-threaded asyncio: loop-iteration granularity is the complete schedule space; the distribution itself is replaced by a probe",
+        "TLA+ spec model-checked with TLC (safety + liveness); TLC behaviours drive the real actor; recorded traces validated by TLC trace spec",
+    ),
 }
 
 NOT_YET = "check not built yet in this round (planned: see DESIGN.md section 5); not claimed until its specification is bound to the code"
